@@ -20,15 +20,20 @@ class Lab:
         self.want_cpp, self.want_py = want_cpp, want_py
         self.want_matlab = want_matlab
         self.spell_rng, self.expanded_p, self.text_filter = None, 0.25, None
+        self.old_pkgs = []      # [(label, Package)]: previous versions declared by the package (written under <root>/old_<label>)
         self.ok = False
         self.err = ""
         self.seq = 0
 
     def prepare(self):
         os.makedirs(self.root, exist_ok=True)
+        versions = []
+        for label, old in self.old_pkgs:
+            vlib.write_package(os.path.join(self.root, "old_" + label), old, self.spell_rng or self.gen.rng, cpp=False, python=False, js=False, expanded_p=self.expanded_p)
+            versions.append((label, f"../old_{label}/pkg_{old.namespace}"))
         self.pkgdir = vlib.write_package(self.root, self.pkg, self.spell_rng or self.gen.rng, ndjson=self.ndjson,
                                          cpp=self.want_cpp, python=True, matlab=self.want_matlab,
-                                         expanded_p=self.expanded_p)
+                                         expanded_p=self.expanded_p, versions=versions or None)
         if self.text_filter:
             for dp, _, fns in os.walk(self.root):
                 for fn in fns:
